@@ -175,4 +175,190 @@ theorem validateOp_walk (p : Params) (sc : Schema) (doc : BuiltDoc) (o : Op) :
       dirDiags p (some sc) o.ty.loc o.dirs ++ varDefDiags p (some sc) [] o.vars ++ unusedVarDiags doc o ++
         walkOut p sc doc (sc.root o.ty) o.sels := rfl
 
+
+/-! ### the fuel of the model never runs out -/
+
+theorem outOfFuel_not_local (p : Params) (sc : Schema) :
+    (∀ loc ds, Diag.outOfFuel ∉ dirDiags p (some sc) loc ds) ∧ (∀ seen as, Diag.outOfFuel ∉ uniqueArgs seen as) ∧
+      (∀ defs as, Diag.outOfFuel ∉ undefinedArgs defs as) ∧ (∀ defs as, Diag.outOfFuel ∉ requiredArgs defs as) := by
+  refine ⟨fun loc ds h => ?_, fun seen as h => ?_, fun defs as h => ?_, fun defs as h => ?_⟩
+  · have := ExecRules.dirDiags_kind p _ _ _ _ h
+    simp [ExecRules.Diag.isDirectiveKind] at this
+  · have := ExecRules.uniqueArgs_kind _ _ _ h
+    cases this
+  · have := Rules.undefinedArgs_kind _ _ _ h
+    cases this
+  · have := Rules.requiredArgs_kind _ _ _ h
+    cases this
+
+theorem outOfFuel_not_site (p : Params) (sc : Schema) (doc : BuiltDoc) (site : Site) :
+    Diag.outOfFuel ∉ site.diags p sc doc := by
+  obtain ⟨n1, n2, n3, n4⟩ := outOfFuel_not_local p sc
+  cases site with
+  | field ty name dirs args subNil =>
+    cases ty with
+    | none => simp [Site.diags, n1, n2]
+    | some t =>
+      cases hfd : sc.field t name with
+      | none => simp [Site.diags, n1, n2, hfd]
+      | some fd =>
+        by_cases hk : (subNil && sc.kind fd.ty == some Kind.composite) = true <;> simp [Site.diags, n1, n2, n3, n4, hfd, hk]
+  | spread f dirs =>
+    cases hf : doc.findFrag f <;> simp [Site.diags, n1, hf]
+  | inline tc dirs =>
+    cases tc with
+    | none => simp [Site.diags, n1, inlineTcd]
+    | some t => by_cases hk : (sc.kind t == some Kind.composite) = true <;> simp [Site.diags, n1, inlineTcd, hk]
+  | fragDef fr =>
+    by_cases hk : (sc.kind fr.tc == some Kind.composite) = true <;> by_cases hc : fr.name ∈ reach doc fr.sels <;>
+      simp [Site.diags, n1, fragTcd, fragCyc, hk, hc]
+
+
+theorem walk_noFuel (p : Params) (sc : Schema) (doc : BuiltDoc)
+    (e : Frag → List Name → List Diag × List Name) (m : Nat) (heQ : HandlerQ (fun _ => True) p sc doc (m + 1) e)
+    (heNF : ∀ fr W, W.Nodup → allDefined doc W → m + 1 ≤ W.length → Diag.outOfFuel ∉ (e fr W).1) :
+    ∀ (t : Sels) (ty : Option Name) (V : List Name), V.Nodup → allDefined doc V → m ≤ V.length →
+      Diag.outOfFuel ∉ (walkSels p (some sc) doc e ty t V).1 := by
+  obtain ⟨n1, n2, n3, n4⟩ := outOfFuel_not_local p sc
+  have inv : ∀ (t : Sels) (ty : Option Name) (V : List Name), V.Nodup → allDefined doc V → m ≤ V.length →
+      WalkQ (fun _ => True) p sc doc ty t V (walkSels p (some sc) doc e ty t V).2 :=
+    fun t ty V a b c => walkSels_walkQ (fun _ => True) p sc doc e m heQ t ty V a b c (fun _ _ => trivial)
+  intro t
+  induction t with
+  | nil => intro ty V _ _ _ h; simp [walkSels] at h
+  | field name dirs args sub rest ihs ihr =>
+    intro ty V hnd hdf hm h
+    simp only [walkSels, List.mem_append] at h
+    rcases h with ((h | h) | h) | h
+    · exact n1 _ _ h
+    · exact n2 _ _ h
+    · cases ty with
+      | none =>
+        simp only at h
+        exact ihs none V hnd hdf hm h
+      | some t0 =>
+        simp only at h
+        cases hfd : sc.field t0 name with
+        | none => simp [hfd] at h
+        | some fd =>
+          simp only [hfd] at h
+          by_cases hc : (sub.isNil && sc.kind fd.ty == some Kind.composite) = true
+          · simp only [hc, if_true, List.mem_append, List.mem_singleton] at h
+            rcases h with (h | h) | h
+            · exact n3 _ _ h
+            · exact n4 _ _ h
+            · cases h
+          · simp only [hc, Bool.false_eq_true, if_false, List.mem_append] at h
+            rcases h with (h | h) | h
+            · exact n3 _ _ h
+            · exact n4 _ _ h
+            · exact ihs _ V hnd hdf hm h
+    · -- the rest, from the marked set the first part leaves
+      cases ty with
+      | none =>
+        simp only at h
+        have e3 := inv sub none V hnd hdf hm
+        exact ihr none _ (e3.nodup hnd) (e3.defd hdf) (Nat.le_trans hm e3.len) h
+      | some t0 =>
+        simp only at h
+        cases hfd : sc.field t0 name with
+        | none =>
+          simp only [hfd] at h
+          exact ihr (some t0) V hnd hdf hm h
+        | some fd =>
+          simp only [hfd] at h
+          by_cases hc : (sub.isNil && sc.kind fd.ty == some Kind.composite) = true
+          · simp only [hc, if_true] at h
+            exact ihr (some t0) V hnd hdf hm h
+          · simp only [hc, Bool.false_eq_true, if_false] at h
+            have e3 := inv sub (some fd.ty) V hnd hdf hm
+            exact ihr (some t0) _ (e3.nodup hnd) (e3.defd hdf) (Nat.le_trans hm e3.len) h
+  | spread f dirs rest ihr =>
+    intro ty V hnd hdf hm h
+    simp only [walkSels, List.mem_append] at h
+    cases hf : doc.findFrag f with
+    | none =>
+      simp only [hf] at h
+      rcases h with (h | h) | h
+      · exact n1 _ _ h
+      · simp at h
+      · exact ihr ty V hnd hdf hm h
+    | some fr =>
+      simp only [hf] at h
+      by_cases hv : f ∈ V
+      · simp only [hv, if_true] at h
+        rcases h with (h | h) | h
+        · exact n1 _ _ h
+        · simp at h
+        · exact ihr ty V hnd hdf hm h
+      · simp only [hv, if_false] at h
+        have hnd1 : (f :: V).Nodup := List.nodup_cons.mpr ⟨hv, hnd⟩
+        have hdf1 : allDefined doc (f :: V) := by
+          intro x hx
+          rcases List.mem_cons.mp hx with rfl | hx
+          · rw [hf]; rfl
+          · exact hdf x hx
+        rcases h with (h | h) | h
+        · exact n1 _ _ h
+        · exact heNF fr (f :: V) hnd1 hdf1 (by simp; omega) h
+        · obtain ⟨_, _, q3, q4, q5, _⟩ := heQ fr (f :: V) hnd1 hdf1 (by simp; omega) (fun _ _ => trivial)
+          exact ihr ty _ q4 q5 (Nat.le_trans (by simp; omega : m ≤ (f :: V).length) q3) h
+  | inline tc dirs sub rest ihs ihr =>
+    intro ty V hnd hdf hm h
+    rw [walk_inline_eq] at h
+    simp only [List.mem_append] at h
+    rcases h with ((h | h) | h) | h
+    · exact n1 _ _ h
+    · cases tc with
+      | none => simp [inlineTcd] at h
+      | some c => by_cases hk : (sc.kind c == some Kind.composite) = true <;> simp [inlineTcd, hk] at h
+    · by_cases hemp : (inlineTcd sc tc).isEmpty = true
+      · simp only [inlineStep, hemp, if_true] at h
+        exact ihs _ V hnd hdf hm h
+      · simp [inlineStep, hemp] at h
+    · by_cases hemp : (inlineTcd sc tc).isEmpty = true
+      · simp only [inlineStep, hemp, if_true] at h
+        have e3 := inv sub (inlineTy ty tc) V hnd hdf hm
+        exact ihr ty _ (e3.nodup hnd) (e3.defd hdf) (Nat.le_trans hm e3.len) h
+      · simp only [inlineStep, hemp, Bool.false_eq_true, if_false] at h
+        exact ihr ty V hnd hdf hm h
+
+theorem enterFrag_noFuel (p : Params) (sc : Schema) (doc : BuiltDoc) :
+    ∀ (n m : Nat), doc.frags.length < n + m → ∀ fr W, W.Nodup → allDefined doc W → m ≤ W.length →
+      Diag.outOfFuel ∉ (enterFrag p (some sc) doc n fr W).1 := by
+  intro n
+  induction n with
+  | zero =>
+    intro m hlt fr W hnd hdf hm _
+    have := marked_le_frags doc W hnd hdf
+    omega
+  | succ n ih =>
+    intro m hlt fr W hnd hdf hm h
+    rw [enterFrag_succ_eq] at h
+    by_cases hg : fragGuard sc doc fr = true
+    · simp only [hg, if_true, List.mem_append] at h
+      rcases h with h | h
+      · exact (outOfFuel_not_local p sc).1 _ _ h
+      · exact walk_noFuel p sc doc _ m (enterFrag_handlerQ (fun _ => True) p sc doc n (m + 1) (by omega))
+          (ih (m + 1) (by omega)) fr.sels _ W hnd hdf hm h
+    · simp only [hg, Bool.false_eq_true, if_false] at h
+      exact outOfFuel_not_site p sc doc (.fragDef fr) (by simpa [Site.diags] using h)
+
+/-- the recursion fuel of the model (the number of fragment definitions) is enough for every document: the walk of
+    an operation never reports the model's own `outOfFuel` -/
+theorem walk_fuel_suffices (p : Params) (sc : Schema) (doc : BuiltDoc) (ty : Option Name) (t : Sels) :
+    Diag.outOfFuel ∉ walkOut p sc doc ty t :=
+  walk_noFuel p sc doc _ 0 (enterFrag_handlerQ (fun _ => True) p sc doc doc.frags.length 1 (by omega))
+    (enterFrag_noFuel p sc doc doc.frags.length 1 (by omega)) t ty [] List.nodup_nil (by intro x hx; cases hx) (Nat.zero_le _)
+
+/-- … so that EVERY diagnostic of the walk is reported exactly when a reachable site reports it -/
+theorem walk_mem_iff_all (p : Params) (sc : Schema) (doc : BuiltDoc) (ty : Option Name) (t : Sels) (d : Diag) :
+    d ∈ walkOut p sc doc ty t ↔ ∃ site, Reaches sc doc ty t site ∧ d ∈ site.diags p sc doc := by
+  by_cases hd : d = .outOfFuel
+  · subst hd
+    constructor
+    · intro h; exact absurd h (walk_fuel_suffices p sc doc ty t)
+    · rintro ⟨site, _, hm⟩; exact absurd hm (outOfFuel_not_site p sc doc site)
+  · exact walk_mem_iff p sc doc ty t d hd
+
 end Apollo.Standalone.Walk
